@@ -37,6 +37,11 @@ def _reciprocal(val):
     return 1 / val
 
 
+def _python_bool(val):
+    # (a numpy bool is not a Number, unlike the python bool it stands for)
+    return bool(val) if isinstance(val, np.bool_) else val
+
+
 def _exact(val):
     # numpy compares a float32 with a python float in single precision, but
     # both are saved as (and loaded from) doubles
@@ -63,6 +68,7 @@ class Prior(HoloPyObject):
                                   "distribution method prob and/or lnprob.")
 
     def __add__(self, value):
+        value = _python_bool(value)
         if isinstance(value, (Number, Prior)):
             if value == 0:
                 return self
@@ -75,6 +81,7 @@ class Prior(HoloPyObject):
                 "Cannot add prior to objects of type {}".format(type(value)))
 
     def __mul__(self, value):
+        value = _python_bool(value)
         if isinstance(value, (Real, Prior)):
             if value == 0:
                 raise TypeError("Cannot multiply a prior by 0")
@@ -93,6 +100,7 @@ class Prior(HoloPyObject):
         return self + value
 
     def __sub__(self, value):
+        value = _python_bool(value)
         if isinstance(value, np.ndarray):
             return np.array([self - val for val in value])
         if isinstance(value, np.integer):
@@ -108,6 +116,7 @@ class Prior(HoloPyObject):
         return self * value
 
     def __truediv__(self, value):
+        value = _python_bool(value)
         if isinstance(value, np.ndarray):
             return np.array([self / val for val in value])
         if isinstance(value, Number) and value == 0:
@@ -122,6 +131,7 @@ class Prior(HoloPyObject):
         return self * -1
 
     def __pow__(self, value):
+        value = _python_bool(value)
         if isinstance(value, (Number, Prior)):
             return TransformedPrior(operator.pow, [self, value])
         elif isinstance(value, np.ndarray):
